@@ -357,6 +357,13 @@ def _never_none(v) -> bool:
 
 def _norm_node(n):
     k = n[0]
+    if k == "sub" and len(n) >= 3 and n[2][0] == "c" and isinstance(n[2][1], int) and not isinstance(n[2][1], bool):
+        # a constant position of a tuple display (or of a choice between two tuple displays) is that component
+        t, i = n[1], n[2][1]
+        if t[0] == "tup" and -len(t[1]) <= i < len(t[1]):
+            return t[1][i]
+        if t[0] == "phi" and t[2][0] == "tup" and t[3][0] == "tup" and -len(t[2][1]) <= i < len(t[2][1]) and -len(t[3][1]) <= i < len(t[3][1]):
+            return _norm_node(("phi", t[1], t[2][1][i], t[3][1][i])) or ("phi", t[1], t[2][1][i], t[3][1][i])
     if k == "bin":
         op, a, b = n[1], n[2], n[3]
         if is_num_const(a) and is_num_const(b):
